@@ -267,4 +267,60 @@ def mergeWith (ow : Bool) : PVal → PVal → Except Err PVal
 
 end Legacy
 
+/-! ## the partial factory (`PartialFactory.get_partial`, l. 460–500)
+
+Which partial class belongs to a model class. A model class *object* is identified by `uid`
+(Python object identity — what a dict keyed by the class hashes on); `name` is its `__module__`
+plus `__qualname__`. Two distinct class objects may carry one name: a definition executed twice
+(notebook cell, schema factory function), `create_model` called twice, `class X(X)`.
+`_partials[cls]` is keyed by the class **object**, `_forwardrefs[cls]` by the **name**
+(`_partial_forwardref_name`). The recursive `get_partial` calls for nested model classes are
+further entries of the call history (`run`). -/
+namespace Factory
+
+structure ClsObj where
+  uid : Nat
+  name : String
+deriving DecidableEq, Repr
+
+/-- a partial class, reduced to its `__partial_src__` (`from_partial` returns
+`self.__partial_src__.parse_obj(…)`, `to_partial` accepts instances of it) -/
+structure PCls where
+  src : ClsObj
+deriving DecidableEq, Repr
+
+structure Tab where
+  /-- `_partials[cls]`: class object ↦ partial class -/
+  partials : List (Nat × PCls) := []
+  /-- `_forwardrefs[cls]`: forward-reference name ↦ partial class -/
+  frefs : List (String × PCls) := []
+deriving Repr
+
+def lookup : List (Nat × PCls) → Nat → Option PCls
+  | [], _ => none
+  | (k, v) :: r, n => if k = n then some v else lookup r n
+
+/-- `_forwardrefs[cls][partial_ref] = partial` -/
+def setRef (n : String) (p : PCls) : List (String × PCls) → List (String × PCls)
+  | [] => [(n, p)]
+  | (k, v) :: r => if k = n then (k, p) :: r else (k, v) :: setRef n p r
+
+/-- `get_partial(mcls)`: the partial stored for this class *object*, otherwise a new partial class
+with `__partial_src__ = mcls`, stored under the object and (for nested references) under the name. -/
+def getPartial (t : Tab) (c : ClsObj) : Tab × PCls :=
+  match lookup t.partials c.uid with
+  | some p => (t, p)
+  | none => ({ partials := (c.uid, ⟨c⟩) :: t.partials, frefs := setRef c.name ⟨c⟩ t.frefs }, ⟨c⟩)
+
+/-- the `get_partial` calls of a program, in order -/
+def run (t : Tab) : List ClsObj → Tab
+  | [] => t
+  | c :: r => run (getPartial t c).1 r
+
+/-- what a nested reference to a model class *named* `n` resolves to when a partial class is
+created (`partial.update_forward_refs(**_forwardrefs[cls])`) -/
+def resolve (t : Tab) (n : String) : Option PCls := AL.get t.frefs n
+
+end Factory
+
 end MetadorModel.Partial
